@@ -12,8 +12,8 @@
    4. the degenerate triples (a point is O; Q = -P; R = -Q; P + Q = -R; Q + R = -P) follow from 2, 3 and
       commutativity (Link_sw_law_comm);
    5. for the remaining triples each of the four additions (P,Q), (Q,R), (P+Q,R), (P,Q+R) is a chord or
-      a tangent: 16 configurations.  Seven are impossible or trivial by cancellation / commutativity, the
-      other nine are the five rational identities of Assoc/SWIdent.v (g1, g2a, g2b, g2c, g3) and their
+      a tangent: 16 configurations.  Eight are trivial by cancellation / commutativity, the
+      other eight are the five rational identities of Assoc/SWIdent.v (g1, g2a, g2b, g2c, g3) and their
       mirror images under (P,Q,R) -> (R,Q,P). *)
 From V Require Import Base.Field C03.CurveExec C03.SWProofs C03.FieldHyp C12.SWSubgroupProofs Link.SWGroup.
 From V Require Import Assoc.SWIdent.
